@@ -35,14 +35,18 @@ def run(ck):
     rule_M(ck, lib)
     rule_X(ck, lib)
     rule_W(ck, lib)
+    rule_T(ck)
+
+
+def rule_T(ck, T="C01-T", D="C01-D"):
     count = 400 if ck.tier == "thorough" else 40
     fs, specs, failures = witness.build(ck, ck.seed, count)
     wit = fs.crate("wit.rlib")
     for (sp, msg) in failures:
         if sp is None:
-            ck.bad("C01-T", "witness:build", "the witness crate does not compile against the current tree:\n" + msg)
+            ck.bad(T, "witness:build", "the witness crate does not compile against the current tree:\n" + msg)
         else:
-            ck.bad("C01-T", "witness:%s:rejected" % sp["mod"], "collision-free declaration set %s (flags %s) is rejected by the current tree: %s"
+            ck.bad(T, "witness:%s:rejected" % sp["mod"], "collision-free declaration set %s (flags %s) is rejected by the current tree: %s"
                    % ([d["cmd"] for d in sp["decls"]], sp["flags"], msg))
     if fs.rc != 0 or wit is None:
         return
@@ -58,20 +62,20 @@ def run(ck):
         decls = witness.S.full_decls(spec)
         lang_spec, coll = witness.S.language(decls)
         if coll:
-            ck.bad("C01-T", "witness:%s:spec" % m, "spec has collisions (generator bug): %s" % coll[:2])
+            ck.bad(T, "witness:%s:spec" % m, "spec has collisions (generator bug): %s" % coll[:2])
             continue
         lang, problems, seen = it.language()
         if lang is None or problems:
-            ck.bad("C01-T", "witness:%s:trie-shape" % m, "; ".join(problems)[:600])
+            ck.bad(T, "witness:%s:trie-shape" % m, "; ".join(problems)[:600])
             disagreements += 1
             continue
         unreachable = set(it.statics) - seen
-        ck.judge(not unreachable, "C01-T", "witness:%s:reachable" % m, "%d statics, all reachable from the root" % len(seen),
+        ck.judge(not unreachable, T, "witness:%s:reachable" % m, "%d statics, all reachable from the root" % len(seen),
                  "unreachable statics: %s" % sorted(unreachable)[:4])
         # id -> handler through the dispatcher
         arms = witness.Arms(it, enums)
         if not arms.ok:
-            ck.bad("C01-D", "witness:%s:execute_command" % m, "generated execute_command not found")
+            ck.bad(D, "witness:%s:execute_command" % m, "generated execute_command not found")
             continue
         id2fn = {}
         for k, xs in sorted(arms.by_arm.items()):
@@ -80,7 +84,7 @@ def run(ck):
                 hc = arms.handler_calls(x)
                 if x.kind == "return" and x.value == ("ctor", OK, (pathsum.UNIT,)):
                     names = [h[1] for h in hc]
-                    ck.judge(len(names) == 1, "C01-D", "witness:%s:arm%d:one-handler" % (m, k), "success path calls exactly %s" % names,
+                    ck.judge(len(names) == 1, D, "witness:%s:arm%d:one-handler" % (m, k), "success path calls exactly %s" % names,
                              "success path of arm %d calls %s (must be exactly its handler)" % (k, names))
                     hs.update(names)
                 else:
@@ -88,12 +92,12 @@ def run(ck):
             if len(hs) == 1:
                 id2fn[k] = hs.pop()
             else:
-                ck.bad("C01-D", "witness:%s:arm%d:handler" % (m, k), "arm %d reaches handlers %s" % (k, sorted(hs)))
+                ck.bad(D, "witness:%s:arm%d:handler" % (m, k), "arm %d reaches handlers %s" % (k, sorted(hs)))
         # wildcard
         okw = bool(arms.wild) and all(x.kind == "return" and x.value == ("ctor", ERR, (("ctor", UNDEF, ()),)) and not arms.handler_calls(x) for x in arms.wild)
-        ck.judge(okw, "C01-D", "witness:%s:wildcard" % m, "unknown id -> Err(UndefinedHeader), nothing called",
+        ck.judge(okw, D, "witness:%s:wildcard" % m, "unknown id -> Err(UndefinedHeader), nothing called",
                  "wildcard arm: %s" % [pathsum.show_exit(x)[:200] for x in arms.wild][:2])
-        ck.judge(sorted(id2fn) == list(range(len(decls))), "C01-D", "witness:%s:arm-ids" % m, "arms 0..%d" % (len(decls) - 1),
+        ck.judge(sorted(id2fn) == list(range(len(decls))), D, "witness:%s:arm-ids" % m, "arms 0..%d" % (len(decls) - 1),
                  "dispatcher arms %s for %d declarations" % (sorted(id2fn), len(decls)))
 
         def want_fn(fn):
@@ -129,12 +133,12 @@ def run(ck):
             bad += "spellings the trie accepts but no declaration spells: %s; " % [(":".join(k[0]), k[1], f) for k, f in extra[:4]]
         if wrong:
             bad += "spellings bound to the wrong handler: %s; " % [(":".join(k[0]), k[1], "want " + f, "got " + str(g)) for k, f, g in wrong[:4]]
-        ck.judge(ok, "C01-T", "witness:%s:language" % m, detail, bad + "declarations: %s" % [d["cmd"] for d in decls][:10])
+        ck.judge(ok, T, "witness:%s:language" % m, detail, bad + "declarations: %s" % [d["cmd"] for d in decls][:10])
         rootn = it.node(it.root_static())
         if len(samples) < 6:
             samples.append({"interface": m, "declarations": [d["cmd"] for d in decls], "spellings": len(lang_spec),
                             "example": [":".join(k[0]) + ("?" if k[1] == "query" else "") + " -> " + str(v) for k, v in list(sorted(got.items()))[:5]]})
-    ck.floor("C01-T", "witness interfaces", programs, 14 + (count if count < 100 else 100))
+    ck.floor(T, "witness interfaces", programs, 14 + (count if count < 100 else 100))
     ck.extra.update({"programs": programs, "disagreements_checked": programs, "disagreements_found": disagreements,
                      "spellings_compared": spellings, "exhaustive_per_program": True})
     ck.extra["witness_samples"] = samples
